@@ -313,8 +313,8 @@ func (p *Peering) closeAllListeners() {
 }
 
 func (p *Peering) copyLinksWithLocking() map[netip.Addr]Link {
-	p.listenersLock.Lock()
-	defer p.listenersLock.Unlock()
+	p.linksLock.RLock()
+	defer p.linksLock.RUnlock()
 
 	return maps.Clone[map[netip.Addr]Link, netip.Addr, Link](p.links)
 }
